@@ -28,6 +28,7 @@ func genAll() {
 	genResolverSrc()
 	genFrag()
 	genPanics()
+	genRestoreSrc()
 }
 
 // ---------------------------------------------------------------------------------
